@@ -22,6 +22,8 @@ pub struct Hostile {
     fixed: Vec<Fixed>,
     trunc_total: u64,
     byte_total: u64,
+    /// every byte of the fixed exchanges replaced by a valid multi-byte UTF-8 character
+    splice_total: u64,
     broken_seeds: Vec<String>,
 }
 
@@ -51,7 +53,8 @@ impl Hostile {
         }
         let trunc_total = fixed.iter().map(|f| f.len + 1).sum();
         let byte_total = fixed.iter().map(|f| f.len * BYTE_VALUES.len() as u64).sum();
-        Self { id, eps, fixed, trunc_total, byte_total, broken_seeds: broken }
+        let splice_total = fixed.iter().map(|f| f.len).sum();
+        Self { id, eps, fixed, trunc_total, byte_total, splice_total, broken_seeds: broken }
     }
 
     fn n_random(&self, tier: Tier) -> u64 { tier.pick(250_000, 12_000_000) }
@@ -145,12 +148,14 @@ impl Check for Hostile {
         }
         v
     }
-    fn total_cases(&self, tier: Tier) -> u64 { self.trunc_total + self.byte_total + self.n_random(tier) }
+    fn total_cases(&self, tier: Tier) -> u64 { self.trunc_total + self.byte_total + self.splice_total + self.n_random(tier) }
     fn case_label(&self, _tier: Tier, idx: u64) -> String {
         if idx < self.trunc_total {
             "truncation-sweep".into()
         } else if idx < self.trunc_total + self.byte_total {
             "byte-sweep".into()
+        } else if idx < self.trunc_total + self.byte_total + self.splice_total {
+            "utf8-splice-sweep".into()
         } else {
             "random-mutation".into()
         }
@@ -192,6 +197,27 @@ impl Check for Hostile {
             }
             return;
         }
+        idx -= self.byte_total;
+        if idx < self.splice_total {
+            // valid multi-byte text where a one-byte character (often a separator or the first byte) was
+            let ch: &[u8] = [&[0xc3u8, 0xa9][..], &[0xe2, 0x82, 0xac], &[0xf0, 0x9f, 0x98, 0x80]][(idx % 3) as usize];
+            for f in &self.fixed {
+                if idx < f.len {
+                    let mut s = f.script.clone();
+                    if let Some((c, j, k)) = locate(&s, idx as usize) {
+                        s[c][j].splice(k ..= k, ch.iter().copied());
+                    }
+                    cx.count("utf8-splice-sweep-cases");
+                    let ep = self.eps[f.ep].clone();
+                    let st = f.settings.clone();
+                    self.judge(cx, &ep, &st, &s, "utf8-splice-sweep");
+                    return;
+                }
+                idx -= f.len;
+            }
+            return;
+        }
+        idx -= self.splice_total;
         // random: fresh seed exchange, random settings, 1-3 mutations
         let ep = self.eps[(idx % self.eps.len() as u64) as usize].clone();
         let settings = Settings::gen(&mut cx.rng);
@@ -238,6 +264,8 @@ impl Check for Hostile {
             "truncation_sweep_planned": self.trunc_total,
             "byte_sweep_cases": m.counters.get("byte-sweep-cases"),
             "byte_sweep_planned": self.byte_total,
+            "utf8_splice_sweep_cases": m.counters.get("utf8-splice-sweep-cases"),
+            "utf8_splice_sweep_planned": self.splice_total,
         })
     }
     fn budget_s(&self, tier: Tier) -> u64 { tier.pick(150, 2400) }
